@@ -9,7 +9,7 @@ impl<'a, T: KeyV + ?Sized> KeyV for &'a T { type KV = T::KV; open spec fn kv(&se
 
 #[verifier::reject_recursive_types(K)]
 #[verifier::reject_recursive_types(V)]
-pub struct HashMap<K: KeyV, V> { pub ghost m: Map<K::KV, V>, pub _k: core::marker::PhantomData<(K, V)> }
+pub struct HashMap<K: KeyV, V> { pub ghost m: Map<K::KV, V>, pub _k: ::std::marker::PhantomData<(K, V)> }
 impl<K: KeyV, V> HashMap<K, V> {
     pub open spec fn view(&self) -> Map<K::KV, V> { self.m }
     #[verifier::external_body] pub fn new() -> (r: Self) ensures r@ == Map::<K::KV, V>::empty() { unimplemented!() }
